@@ -58,4 +58,180 @@ elab "pair_subst" : tactic => do
       if progressed then loop n
   loop 64
 
+/-- server choice of `ares_send_query` -/
+def pickServer (reqSrv : Option Nat) (s : St) : Option Server × St :=
+  match reqSrv with
+  | some id => (s.server? id, s)
+  | none =>
+    if s.cfg.rotate then
+      let nbest := countBest s.sortedServers
+      if nbest == 0 then (none, s) else
+      let (c, s') := s.draw1
+      (s.sortedServers[c % nbest]?, s')
+    else (s.sortedServers.head?, s)
+
+/-- `ares_fetch_connection` -/
+def fetchConn (s : St) (q : Query) (srv : Server) : Option Nat :=
+  if q.usingTcp then srv.tcpConn
+  else match srv.conns.head? with
+    | none => none
+    | some fd =>
+      match s.conn? fd with
+      | none => none
+      | some c =>
+        if c.tcp then none
+        else if s.cfg.udpMax > 0 && c.total ≥ s.cfg.udpMax then none
+        else some fd
+
+/-- `ares_open_connection` -/
+def openConn (s : St) (tcp : Bool) (srv : Server) : (Except Status Nat) × St :=
+  let (f, s) := s.fault "socket"
+  match f with
+  | some _ => (.error .connrefused, s.emit s!"sock!({if tcp then "tcp" else "udp"})")
+  | none =>
+    let fd := s.nextFd
+    let wl := if tcp then s.pendingWl else []
+    let s := { s with nextFd := fd + 1,
+                      pendingWl := if tcp then [] else s.pendingWl,
+                      socks := s.socks ++ [({ fd := fd, tcp := tcp, wl := wl } : VSock)] }
+    let s := (s.emit s!"sock({fd},{if tcp then "tcp" else "udp"},4)").slog fd "open"
+    let port := if tcp then srv.tcpPort else srv.udpPort
+    let s := s.modSock fd fun v => { v with peer := srv.addr, port := port }
+    let (f, s) := s.fault "connect"
+    let s := s.slog fd "connect"
+    let connFail := match f with
+      | some e => !isWouldBlock e
+      | none => false
+    let s := match f with
+      | some _ => s.emit s!"conn!({fd},{srv.addr}#{port})"
+      | none => s.emit s!"conn({fd},{srv.addr}#{port})"
+    if connFail then
+      let s := ((s.modSock fd fun v => { v with isOpen := false }).emit s!"close({fd})").slog fd "close"
+      (.error .connrefused, s)
+    else
+      let (f, s) := s.fault "getsockname"
+      match f with
+      | some _ =>
+        let s := ((s.modSock fd fun v => { v with isOpen := false }).emit s!"close({fd})").slog fd "close"
+        (.error .connrefused, s)
+      | none =>
+        let c : Conn := { fd := fd, srv := srv.id, tcp := tcp, selfIp := s.selfVariant }
+        let s := { s with conns := s.conns ++ [c] }
+        let s := s.modServer srv.id fun v =>
+          { v with conns := if tcp then v.conns ++ [fd] else fd :: v.conns,
+                   tcpConn := if tcp then some fd else v.tcpConn }
+        let s := s.notify fd true tcp
+        (.ok fd, s)
+
+/-- the part of `ares_send_query` after a connection has been found: `ares_conn_query_write`, timeout, linking -/
+def sqWrite (go : Call → St → St × Ret) (reqSrv : Option Nat) (key : Nat) (q : Query) (srv : Server) (fd : Nat) (s : St) : St × Ret :=
+  let probeDowned := reqSrv.isNone && srv.failures == 0 && q.tryCount == 0
+  let cTcp := ((s.conn? fd).map (·.tcp)).getD q.usingTcp
+  let cSelf := ((s.conn? fd).map (·.selfIp)).getD 0
+  let srvNow0 := (s.server? srv.id).getD srv
+  let reqOpt : Cares.Proto.Cookie.ReqOpt := if q.edns then some q.reqCookie else none
+  let ao := Cares.Proto.Cookie.apply srvNow0.cookie { selfIp := selfAddr cSelf, tcp := cTcp } s.tv s.peek8 reqOpt
+  let s := if ao.draws > 0 then s.pop8 else s
+  let s := s.modServer srv.id fun v => { v with cookie := ao.ck }
+  let newCk : Option (List UInt8) := ao.req.join
+  let cookie := match newCk with
+    | some b => bytesToHex b
+    | none => "-"
+  let s := s.modQuery key fun q => { q with reqCookie := newCk, cookie := cookie }
+  let q := { q with reqCookie := newCk, cookie := cookie }
+  let frame : OutFrame := { len := frameLen q.name q.edns cookie, key := key, qid := q.qid, name := q.name,
+                            qtype := q.qtype, qclass := q.qclass, rd := q.rd, edns := q.edns, cookie := cookie }
+  let s := s.modConn fd fun c => { c with out := c.out ++ [frame] }
+  let s := { s with writeLog := s.writeLog ++ [key] }
+  let c := (s.conn? fd).getD default
+  let (wst, s) : Status × St :=
+    if c.tcp && !c.connected then (.ok, s)
+    else if s.cfg.pendingWrite && !s.notifyPending && c.tcp then
+      (.ok, ({ s with notifyPending := true }).emit "pendingwrite")
+    else
+      let (s, r) := go (.flush fd) s
+      (r, s)
+  match wst with
+  | .ok =>
+    match s.query? key, s.conn? fd with
+    | some q, some _ =>
+      -- ares_calc_query_timeout
+      let srvNow := (s.server? srv.id).getD srv
+      let timeout := s.serverTimeout srvNow
+      let nsrv := s.servers.length
+      let rounds := q.tryCount / nsrv
+      let timeplus := if rounds > 0 then timeout * 2 ^ rounds else timeout
+      let timeplus := if s.cfg.maxtimeout != 0 && timeplus > s.cfg.maxtimeout then s.cfg.maxtimeout else timeplus
+      let (dl, s) : Deadline × St :=
+        if rounds > 0 then
+          let (_, s) := s.draw2
+          let lo := max timeout (timeplus - timeplus / 2)
+          let hi := max timeout timeplus
+          (.pending (s.now + lo) (s.now + hi), s)
+        else (.at (s.now + max timeplus timeout), s)
+      let s := { s with byTimeout := s.byTimeout.erase key }
+      let s := match q.conn with
+        | some old => s.modConn old fun c => { c with queries := c.queries.erase key }
+        | none => s
+      let s := s.modQuery key fun q => { q with ts := s.now, deadline := dl, conn := some fd, inConnList := true }
+      let s := { s with pendingOrder := s.pendingOrder.erase key ++ [key] }
+      let s := s.modConn fd fun c => { c with queries := c.queries.erase key ++ [key], total := c.total + 1 }
+      if probeDowned then
+        let (s, _) := go (.probe srv.id key) s
+        (s, .ok)
+      else (s, .ok)
+    | none, _ => (s.mfault s!"uaf-query({key}) after write in ares_send_query", .other)
+    | _, none => (s.mfault s!"uaf-conn({fd}) after write in ares_send_query", .other)
+  | .nomem => go (.endQuery (some srv.id) key .nomem none) s
+  | .connrefused | .badfamily =>
+    let (s, _) := go (.connError fd true wst) s
+    match (s.byQid.find? (fun (id, k) => id == q.qid && k == key)).bind (fun _ => s.query? key) with
+    | none => (s, .cancelled)
+    | some _ =>
+      let (s, r) := go (.requeue key wst true none false) s
+      (s, if r == .timeout then .connrefused else r)
+  | wst' =>
+    let s := s.incFailures srv.id q.usingTcp
+    go (.requeue key wst' true none false) s
+
+
+
+/-- `ares_send_query` decomposed into its stages (definitional) -/
+theorem bodySendQuery_eq (go : Call → St → St × Ret) (reqSrv : Option Nat) (key : Nat) (s : St) :
+    bodySendQuery go reqSrv key s =
+      match s.query? key with
+      | none => (s.mfault s!"uaf-query({key}) in ares_send_query", .other)
+      | some q =>
+        let sorted := s.sortedServers
+        let (srv?, s) : Option Server × St := pickServer reqSrv s
+        match srv? with
+        | none => go (.endQuery none key .noserver none) s
+        | some srv =>
+          let s := { s with picks := s.picks ++ [(key, srv.id, reqSrv.isSome, sorted.map fun v => (v.id, v.failures))] }
+          let (connRes, s) : (Except Status Nat) × St :=
+            match fetchConn s q srv with
+            | some fd => (.ok fd, s)
+            | none => openConn s q.usingTcp srv
+          match connRes with
+          | .error st => go (.requeue key st true none false) (s.incFailures srv.id q.usingTcp)
+          | .ok fd => sqWrite go reqSrv key q srv fd s := by
+  rfl
+
+/-- peel a goal `P (…).1` about the result of a body: strip primitive updates with the frame lemmas (plus the
+    given simp lemmas), recursive calls with the hypothesis `h` on `go`, and split the control flow -/
+syntax "chan_peel " ident (" [" Lean.Parser.Tactic.simpLemma,* "]")? : tactic
+macro_rules
+  | `(tactic| chan_peel $h [$ts,*]) =>
+    `(tactic| repeat (first
+        | assumption
+        | (apply $h)
+        | (simp only [chan_frame, $ts,*])
+        | (split <;> pair_subst)))
+  | `(tactic| chan_peel $h) =>
+    `(tactic| repeat (first
+        | assumption
+        | (apply $h)
+        | (simp only [chan_frame])
+        | (split <;> pair_subst)))
+
 end Cares.Chan
